@@ -292,20 +292,27 @@ func (c *Check) guardRule(rule string, sel func(*ssa.Function) bool, constOnly b
 					// the value is built differently in the helper (make+index ↔ append, local ↔
 					// parameter): match on the index shape alone, provided it identifies one site
 					// of the helper and one entry of the caller
-					shape := func(k string) string { return k[strings.LastIndex(k, "["):] }
+					// the site with its root (make / local / parameter and its type) blanked out
+					shape := func(k string) string {
+						d := k[strings.Index(k[4:], ":")+5:] // after "idx:<function>:"
+						return rootRE.ReplaceAllString(d, "$1·")
+					}
+					base := func(k string) string { return seqSuffixRE.ReplaceAllString(shape(k), "") }
 					nHelper := 0
 					for _, s2 := range g.collectSites(f, constOnly) {
-						if g.discharge(s2) == "" && shape("idx:"+fnName(f)+":"+s2.desc) == shape(o.Key) {
+						if g.discharge(s2) == "" && base("idx:"+fnName(f)+":"+s2.desc) == base(o.Key) {
 							nHelper++
 						}
 					}
 					var cands []string
 					for k3 := range exceptions {
-						if !seenKeys[k3] && strings.HasPrefix(k3, "idx:"+fnName(caller)+":") && shape(k3) == shape(o.Key) {
+						if !seenKeys[k3] && strings.HasPrefix(k3, "idx:"+fnName(caller)+":") && base(k3) == base(o.Key) {
 							cands = append(cands, k3)
 						}
 					}
-					if nHelper == 1 && len(cands) == 1 && len(directCallers(p, f)) == 1 {
+					sort.Strings(cands)
+					// as many unproved sites of that shape in the helper as reviewed entries in the caller
+					if nHelper >= 1 && len(cands) == nHelper && len(directCallers(p, f)) == 1 {
 						why, ok, hookFn = exceptions[cands[0]]+" [site now in helper "+fnName(f)+"]", true, fnName(caller)
 						break
 					}
@@ -1311,6 +1318,12 @@ func directCallers(p *Program, f *ssa.Function) []*ssa.Function {
 	sortFns(out)
 	return out
 }
+
+// rootRE: the root of a site description: optional dereference prefix, then `make`, or an
+// optional `param#N ` / `var ` followed by a type.
+var rootRE = regexp.MustCompile(`^((?:\*&)*)(?:make|(?:param#\d+ |var |param \w+)?(?:\[\])*\*?[A-Za-z_][\w.]*)`)
+
+var seqSuffixRE = regexp.MustCompile(`#\d+$`)
 
 var looseRootRE = regexp.MustCompile(`(param#\d+ |var )`)
 
